@@ -451,8 +451,8 @@ pub fn run(cfg: &Cfg, prop: &str) {
     let mut r = Rng::new(cfg.seed ^ (prop.bytes().fold(0u64, |a, b| a * 131 + b as u64)));
     let pool = key_pool(2);
     let n = match (prop, cfg.thorough) {
-        (_, true) => 1500,
-        (_, false) => 160,
+        (_, true) => 6000,
+        (_, false) => 500,
     };
     let mut insp_counter = 0usize;
     for i in 0..n {
